@@ -10,10 +10,10 @@ C03 → C02 bridge: arrays that serde_arrow BUILDS satisfy everything the reader
 
 The read-back theorems (`Props.C02.read_any_decode`, `read_typed_decode`) carry three reader-side preconditions:
 `Read.new Fixes.all a = ok ()` (the reader can be constructed), `Read.physical a` (lengths representable),
-`Read.utf8Ok lv` (decoded strings are valid UTF-8).  Here they are DERIVED from `Spec.WFS` — which `C03_wf'` proves of every
+`Read.utf8Ok lv` (decoded strings are valid UTF-8).  Here they are DERIVED from `Spec.WFS` — which `C03_wfS'` proves of every
 array `to_marrow` returns — and composed with `Props.C01.C01_build_decode'` (the hidden-rows refinement, Props/C01Obs.lean:
 NO `Safe` hypothesis; the theorems that have `coveredF` among their hypotheses carry nothing in its place, the two that do
-not — `toMarrow_readable`, `toMarrow_physical_partial` — carry exactly the hypothesis of `C03_wf'`, `Safe ∨ coveredF`):
+not — `toMarrow_readable`, `toMarrow_physical_partial` — carry exactly the hypothesis of `C03_wfS'`, `Safe ∨ coveredF`):
 
   wf_new              WFS f a, `readableDT f.dataType`      ⇒  Read.new Fixes.all a = ok ()
   wf_utf8             WFS f a, decodeAt a i = ok lv          ⇒  utf8Ok lv                       (no further hypothesis)
@@ -59,7 +59,7 @@ theorem wf_not_physical :
     let a : Arr := .fixedSizeList (2 ^ 63) none 2 ⟨"element", false, []⟩ (.null (2 ^ 64))
     WFS f a = true ∧ Read.physical a = false := Lemmas.C03.wf_not_physical
 
-/-- the builders never produce a SPARSE union (the reader only supports dense ones): excluded by `WFS`, hence by `C03_wf` -/
+/-- the builders never produce a SPARSE union (the reader only supports dense ones): excluded by `WFS`, hence by `C03_wfS` -/
 theorem wf_dense (f : Field) (types : List Int) (cols : ArrUFields) : WFS f (.union types none cols) = false := by
   rcases f with ⟨n, dt, nl, md⟩
   cases dt <;> simp [WFS, Field.dataType, Field.nullable, wf]
@@ -78,10 +78,10 @@ theorem wf_dict_values_not_null (f : Field) (ks : Arr) (ty : BytesTy) (b : Bits)
 
 /-! ### the arrays `to_marrow` returns are readable -/
 
-/-- **`toMarrow_readable`**.  Under the hypotheses of `C03_wf'` and for a schema the reader supports (`readableDT`), every
+/-- **`toMarrow_readable`**.  Under the hypotheses of `C03_wfS'` and for a schema the reader supports (`readableDT`), every
 array `to_marrow` returns is accepted by `ArrayDeserializer::new`, holds `rows.length` rows as far as the reader is
 concerned (`ViewExt::len`), decodes to valid UTF-8 only, and — for types without FixedSizeList / Dictionary — has
-representable lengths.  `hsafe` is the hypothesis of `Props.C01.C03_wf'`: `Safe` OR `coveredF` (both decidable on the
+representable lengths.  `hsafe` is the hypothesis of `Props.C01.C03_wfS'`: `Safe` OR `coveredF` (both decidable on the
 schema; what is excluded is a dictionary with NON-nullable keys and a value type other than Utf8 / LargeUtf8 below a
 nullable struct / fixed-size list).  The composed theorems below have `coveredF` anyway and carry no `Safe`. -/
 theorem toMarrow_readable (ext : Ext) (fields : List Field) (rows : List SVal) (arrs : List Arr)
@@ -96,7 +96,7 @@ theorem toMarrow_readable (ext : Ext) (fields : List Field) (rows : List SVal) (
       Read.new Read.Fixes.all a = .ok () ∧ Read.vlen a = rows.length ∧
       (∀ i lv, decodeAt a i = .ok lv → Read.utf8Ok lv = true) ∧
       (physFreeDT f.dataType = true → Read.physical a = true) := by
-  obtain ⟨hlen, hwf⟩ := Props.C01.C03_wf' ext fields rows arrs hschema hsafe hext hrows h
+  obtain ⟨hlen, hwf⟩ := Props.C01.C03_wfS' ext fields rows arrs hschema hsafe hext hrows h
   refine ⟨hlen, ?_⟩
   intro j f a hf ha
   obtain ⟨hw, hl⟩ := hwf j f a hf ha
@@ -160,7 +160,7 @@ theorem toMarrow_physical_partial (ext : Ext) (fields : List Field) (rows : List
     (hrows : ∀ x ∈ rows, Lemmas.C03.SValOK x)
     (hfree : ∀ f ∈ fields, physFreeDT f.dataType = true)
     (h : toMarrow ext fields rows = .ok arrs) : ∀ a ∈ arrs, Read.physical a = true := by
-  obtain ⟨hlen, hwf⟩ := Props.C01.C03_wf' ext fields rows arrs hschema hsafe hext hrows h
+  obtain ⟨hlen, hwf⟩ := Props.C01.C03_wfS' ext fields rows arrs hschema hsafe hext hrows h
   intro a ha
   obtain ⟨j, hj, rfl⟩ := List.getElem_of_mem ha
   have hjf : j < fields.length := by omega
@@ -170,7 +170,7 @@ theorem toMarrow_physical_partial (ext : Ext) (fields : List Field) (rows : List
 /-- **`toMarrow_readAny`** — reading back what was built gives the documented value of the input.  Whenever `to_marrow`
 returns arrays, slot `i` of array `j`, read with `deserialize_any`, is the `toD` rendering of the `j`-th field of
 `interpRow ext fields rows[i]` (`cols`: the decoded columns of `C01_build_decode`).  NO reader-side hypothesis: the
-hypotheses are those of `C01_build_decode'` and `C03_wf'` (schema: `SchemaOKF`, `coveredF` — NO `Safe`; rows: `noRaw`,
+hypotheses are those of `C01_build_decode'` and `C03_wfS'` (schema: `SchemaOKF`, `coveredF` — NO `Safe`; rows: `noRaw`,
 `SValOK`; `ExtOK`), plus the two schema conditions of this file — `readableDT` (types the reader supports) and `physFreeDT` (no
 FixedSizeList / Dictionary: the part of `Read.physical` that is derived; `toMarrow_readAny_partial` is the statement for
 all readable schemas with `physical` as a hypothesis). -/
@@ -217,7 +217,7 @@ theorem toMarrow_readRecord_partial (ext : Ext) (fields : List Field) (rows : Li
     ∀ (i : Nat) (hi : i < rows.length), ∃ lv, interpRow ext fields rows[i] = .ok lv ∧
       Roundtrip.readRecord .any fields arrs i = .ok (Read.toD (Roundtrip.rootArr fields arrs rows.length) lv) := by
   obtain ⟨hlen, cols, hc1, hc2, hc3, hc4⟩ := Props.C01.C01_build_decode' ext fields rows arrs hschema hcov (fun x hx => Build.noRaw_ssa x (hraw x hx)) (Or.inl hraw) h
-  obtain ⟨_, hwf⟩ := Props.C01.C03_wf' ext fields rows arrs hschema (Or.inr hcov) hext hrows h
+  obtain ⟨_, hwf⟩ := Props.C01.C03_wfS' ext fields rows arrs hschema (Or.inr hcov) hext hrows h
   have hcols : Spec.wfFields (Fields.ofList fields) (Roundtrip.zipCols fields arrs) rows.length = true :=
     Roundtrip.zip_wf rows.length fields arrs hlen hwf
   have hnewF : Read.newFields Read.Fixes.all (Roundtrip.zipCols fields arrs) = .ok () :=
